@@ -428,6 +428,7 @@ CONFIGS = {
 
 def _cfg_worker(a):
     progs, cfg, tmo, deadline = a
+    deadline = time.time() + deadline
     try:
         return run_config(progs, cfg, tmo, deadline, qjobs=4)
     except Inconclusive as e:
@@ -439,7 +440,7 @@ def main(tier):
     progs = load_progs()
     rep = common.Reporter(PID)
     tmo = 600 if tier == "quick" else 2400
-    deadline = time.time() + (1500 if tier == "quick" else 3300)      # after the MIR dumps
+    deadline = 1500 if tier == "quick" else 3300      # seconds for the CFA construction of ONE configuration, counted from its start
     cfgs = CONFIGS[tier]
     only = os.environ.get("VERIF_C09_ONLY")        # development aid: run the configurations whose name contains this text
     if only:
